@@ -52,7 +52,7 @@ def gen(rng, tier, index):
         ops.append(["readonly_tick"])
     elif cfg["persistence"] and rng.random() < 0.2:
         # one scheduled save hits a transient I/O error; nothing changes afterwards
-        ops.append(["fault_tick", rng.choice(["open", "write", "flush", "fsync", "close", "rename", "rename2", "rename2", "remove"]), rng.choice(["EIO", "EACCES", "ENOSPC", "ETIMEDOUT"])])
+        ops.append(["fault_tick", rng.choice(["open", "write", "flush", "fsync", "close", "rename", "rename2", "rename2", "remove"]), rng.choice(["EIO", "EACCES", "ENOSPC", "ETIMEDOUT", "NOMEM"])])
     if cfg["flavour"] not in ("mqtt", "amqtt") and rng.random() < 0.15:
         # the last change is IN FLIGHT when a save tick fires: one or two forced switches inside the code that applies it
         # (allocator, presentation, value and attribute handlers, the dirty mark), everything else runs to its next
